@@ -149,6 +149,22 @@ func ecGenCoding(c *runCtx, run func([]string)) {
 					}
 					ops = append(ops, fmt.Sprintf("ec recon d=%d p=%d len=%d seed=%d present=%s required=%s", d, p, ln, seed, joinInts(present), joinInts(required)))
 				}
+				// DecodeRange: a window of parts with exactly one part missing, at every position of the window
+				// (first, inside, LAST) - the get service calls it with the failed part first
+				if ln > 0 && p > 0 {
+					for t := 0; t < 3; t++ {
+						fr := c.rng.IntN(n)
+						to := fr + c.rng.IntN(n-fr)
+						miss := []int{fr, to, fr + (to-fr)/2}[t]
+						var present []int
+						for i := 0; i < n; i++ {
+							if i != miss {
+								present = append(present, i)
+							}
+						}
+						ops = append(ops, fmt.Sprintf("ec rrange d=%d p=%d len=%d seed=%d present=%s from=%d to=%d", d, p, ln, seed, joinInts(present), fr, to))
+					}
+				}
 				// memory layout of Split for several capacities
 				for _, extra := range []int{0, 1, ln / 2, ln, 3 * ln, 1024} {
 					ops = append(ops, fmt.Sprintf("ec layout d=%d p=%d len=%d cap=%d", d, p, ln, ln+extra))
@@ -184,7 +200,7 @@ func fnv32(b []byte) uint32 {
 func ecExecCoding(c *runCtx, line string, o opLine) {
 	c.count(o.name)
 	switch o.name {
-	case "code", "recon":
+	case "code", "recon", "rrange":
 		d, p, ln, seed := o.int("d"), o.int("p"), o.int("len"), o.int("seed")
 		rule := verifbridge.ECRule{DataPartNum: uint8(d), ParityPartNum: uint8(p)}
 		payload := detPayload(ln, seed)
@@ -232,12 +248,27 @@ func ecExecCoding(c *runCtx, line string, o opLine) {
 			return
 		}
 		present, required := o.ints("present"), o.ints("required")
+		if o.name == "rrange" {
+			fr, to := o.int("from"), o.int("to")
+			if ln == 0 || to < fr || to >= d+p {
+				c.emit(line, "=> bad-op")
+				return
+			}
+			required = nil
+			for i := fr; i <= to; i++ {
+				required = append(required, i)
+			}
+		}
 		for i := range parts {
 			if !inList(present, i) {
 				parts[i] = nil
 			}
 		}
-		err = verifbridge.ECDecodeIndexes(rule, parts, required)
+		if o.name == "rrange" {
+			err = verifbridge.ECDecodeRange(rule, o.int("from"), o.int("to"), parts)
+		} else {
+			err = verifbridge.ECDecodeIndexes(rule, parts, required)
+		}
 		if err != nil {
 			c.emit(line, "=> ok recon=err")
 			if ln > 0 {
